@@ -31,7 +31,7 @@ impl Prop for C02 {
         "C02"
     }
     fn cases(&self, tier: Tier) -> u64 {
-        tier.pick(1_000_000, 4_000_000)
+        tier.pick(1_000_000, 24_000_000)
     }
     fn strategy(&self, _tier: Tier) -> BoxedStrategy<Case> {
         let site_date = prop_oneof![
